@@ -65,9 +65,11 @@ class Procedure[T_Ret]:
 			Errors.Error: 実行中のエラー
 		"""
 		self.__stacks.append([])
-		result = self.__exec_impl(root)
-		self.__stacks.pop()
-		return result
+		try:
+			return self.__exec_impl(root)
+		finally:
+			# 実行に失敗した場合もスタックを破棄する。残したままにすると、呼び出し元(入れ子の実行元)が失敗した実行の結果を参照してしまう
+			self.__stacks.pop()
 
 	def __exec_impl(self, root: Node) -> T_Ret:
 		"""指定のルート要素から逐次処理し、結果を出力
